@@ -17,6 +17,10 @@
 (* Operation k (0-based) of grower t checks that the elements of the range it was handed    *)
 (* are default-constructed exactly once and writes v + j, v = t*100000 + k*100, into the     *)
 (* j-th of them; "mis" counts failed checks (see RefsValid).                                 *)
+(* "nz" (per grower) / "nz0" (initialSize elements): the grower repeats its program on an    *)
+(* arena of int and on an arena of a plain aggregate (no user-provided default constructor), *)
+(* on a heap whose blocks are handed out filled with 0xAB; nz / nz0 count the handed-out     *)
+(* elements that differ from T() (see ValueInitialised).                                      *)
 (*                                                                                         *)
 (* There are no timestamps and no cross-thread order in a record: RecordsOK is the part of   *)
 (* C37 (Arena.tla: RangesExact, ConstructedOnce, ElementsConstructed, StableRefs,            *)
@@ -108,6 +112,15 @@ RefsValid(rec) ==
   /\ rec.moved = 0
   /\ rec.bufmis = 0
 
+\* (g') ElementsConstructed for element types WITHOUT a user-provided default constructor (int, a plain
+\*     aggregate): the arena constructs every element with `new (p) T()`, i.e. value-initialisation, which
+\*     zero-initialises such a T; so every element handed out by grow_by / by the initialSize constructor
+\*     equals T() whatever the malloc'ed block held before (the driver's malloc hands out 0xAB-filled
+\*     blocks).  Holds for every interleaving: the caller owns its range and nobody else writes to it.
+ValueInitialised(rec) ==
+  /\ rec.nz0 = 0
+  /\ \A t \in 1 .. Len(rec.thr) : rec.thr[t].nz = 0
+
 \* (h) Bookkeeping / BufSizesExact at quiescence: size() < capacity() = numBuffers() * buffer size
 \*     (grow_by allocates while oldPos + delta >= allocatedSize_), and the used sizes of the buffers
 \*     sum to size().
@@ -127,6 +140,7 @@ RecOK(rec) ==
     /\ ProgramOrderOK(rec)
     /\ ConstructedOnce(rec)
     /\ RefsValid(rec)
+    /\ ValueInitialised(rec)
     /\ BookkeepingOK(rec)
 
 RecordsOK == l > Len(ObsLog) \/ RecOK(ObsLog[l])
